@@ -1,5 +1,6 @@
 """C03 - stratifying without adjustments does not change aggregate dynamics."""
 import copy
+import json
 from .common import *  # noqa
 
 KEYS = {"comp_rates", "flow_rates", "outputs", "comps", "flows"}
@@ -82,6 +83,7 @@ def run(tier, seed):
         if (not strat["nonlinear"]) or nsteps(strat) <= 2:
             obs.append({"obs": "run", "solver": "euler", "params": pv})
         obs.append({"obs": "oracle", "name": "c03", "params": pv, "seed": seed + len(progs), "new_strats": new, "states": 3 if tier == "quick" else 6, "strain_only": strain_only,
+                    "discontinuous": '"pw"' in json.dumps(base["ops"]),
                     "base_program": checklib.strip_meta(dict(base, obs=[])), "strat_program": checklib.strip_meta(dict(strat, obs=[]))})
         strat["obs"] = obs
         progs.append(strat)
